@@ -1311,7 +1311,7 @@ func (gc GoCode) Write(w io.Writer, indent int) error {
 		}
 		return writeIndent(w, indent, "}}")
 	}
-	if !gc.Multiline {
+	if !gc.Multiline && !bytes.Contains(source, []byte("\n")) {
 		return writeIndent(w, indent, `{{ `, string(source), ` }}`)
 	}
 	if err := writeIndent(w, indent, "{{"+string(source)+"\n"); err != nil {
